@@ -85,7 +85,8 @@ def do_call(pp, w, handles, recipe, call):
             base, inc, unit = FILL_BASE[call[1]]
             recipe.fill_to(_obj(w, handles, call[1], call[2]), w['water'], f"{base + inc * call[3]} {unit}")
         elif op == 'dilute':
-            recipe.dilute(_obj(w, handles, call[1]), w['nacl'], DILUTE_C[call[2]], w['water'])
+            recipe.dilute(_obj(w, handles, call[1]), w['nacl'], DILUTE_C[call[2]], w['water'],
+                          *((call[1] + '-diluted',) if len(call) > 3 else ()))          # variant: renamed by the step
         elif op == 'transfer':
             recipe.transfer(_obj(w, handles, call[1], call[2]), _obj(w, handles, call[3], call[4]), '10 uL')
         elif op == 'bad':
@@ -281,8 +282,8 @@ def variants(action, args, nsteps):
             return [('remove', o, 'whole'), ('fill_to', o, 'whole', k), ('remove', o, SLICES[1]),
                     ('fill_to', o, SLICES[2], k)]
         if o == 'A':
-            return [('remove', o, None), ('dilute', o, k)]
-        return [('remove', o, None), ('fill_to', o, None, k), ('dilute', o, k)]
+            return [('remove', o, None), ('dilute', o, k), ('dilute', o, k, 'rename')]
+        return [('remove', o, None), ('fill_to', o, None, k), ('dilute', o, k), ('dilute', o, k, 'rename')]
     if action == 'Transfer':
         o, p = args
         sf = SLICES if o == PLATE else [None]
